@@ -1762,8 +1762,11 @@ impl World {
                             _ => items[&k].clone(),
                         };
                         let dg = digest_bytes(&body);
-                        let name = match g.below(9) {
+                        let name = match g.below(11) {
                             0 => format!("{}-{}.delta", 1 + g.below(3), "ab".repeat(32)),
+                            // an index beyond u32 / beyond u64 in a block name
+                            9 => format!("4294967296-{}.delta", "cd".repeat(32)),
+                            10 => format!("99999999999999999999-{}.delta", &dg[..8]),
                             1 => format!("{}.pack", "cd".repeat(32)),
                             2 => format!("{}-{}.delta", 1, dg),
                             // names whose digest part is a proper prefix / case variant of the real hash, or empty
